@@ -15,6 +15,9 @@ func init() {
 			if (id == "C05" || id == "C06") && r.Tape.Draw(4) == 3 {
 				return skyBatchScenario(r, id) // the bridge-batch half of these properties
 			}
+			if id == "C09" && r.Tape.Draw(6) == 5 {
+				return pruneWorld(r, id) // long runs in which stale messages of every kind get pruned
+			}
 			return jobScenario(r, id)
 		})
 	}
